@@ -130,6 +130,13 @@ class C09(Check):
         plan["prior_depth"] = rng.choice([None, None, 2, 3, 4]) if plan["db"] and len(g) <= 6 else None
         plan["tp"] = rng.choice([None, 0.05, 0.5, 2.0])
         plan["sleep"] = rng.choice([0, 0, 1])
+        if plan["reset"]:
+            # a reset before every probe multiplies the simulated time (wait_for_ecu); keep the tester-present rate
+            # and the exponential thorough mode in proportion so that one scan stays within seconds of wall time
+            if plan["tp"] == 0.05:
+                plan["tp"] = 0.5
+            if plan["thorough"]:
+                plan["depth"] = min(plan["depth"], 2)
         plan["lat"] = rng.choice([[0.0001, 0.0005], [0.001, 0.004], [0.005, 0.02]])
         plan["segment"] = rng.choice(["whole", "random", "bytes"])
         plan["net_seed"] = rng.getrandbits(30)
